@@ -359,6 +359,155 @@ theorem check_of_complete (t : List PreSym) (kinds : List EqKind) (sk : List Ste
     cases harr
     exact hb
 
+/-! ## the type check implies its specification -/
+
+theorem foldl_or_iff {α : Type} (f : α → Nat) (l : List α) (p : Nat) :
+    (l.foldl (fun acc x => acc ||| f x) 0).testBit p = true ↔ ∃ x ∈ l, (f x).testBit p = true := by
+  constructor
+  · intro h
+    rcases foldl_or_elim f l 0 p h with h0 | h1
+    · simp at h0
+    · exact h1
+  · rintro ⟨x, hx, hfx⟩
+    exact foldl_or_mem f l 0 p hx hfx
+
+theorem intKnown_iff (b : Body) (p : Nat) :
+    (intKnown b).testBit p = true ↔ ∃ t ∈ b.types, t.integral.testBit p = true :=
+  foldl_or_iff ArrTypes.integral b.types p
+
+theorem floatKnown_iff (b : Body) (p : Nat) :
+    (floatKnown b).testBit p = true ↔ ∃ t ∈ b.types, t.floating.testBit p = true :=
+  foldl_or_iff ArrTypes.floating b.types p
+
+theorem eqIdx_iff (kinds : List EqKind) (e : EqInst) (p : Nat) :
+    (eqIdx kinds e).testBit p = true ↔
+      ∃ k, kinds[e.kind]? = some k ∧ (k.idxD.testBit p = true ∨ k.idxS.testBit p = true) := by
+  unfold eqIdx
+  cases hk : kinds[e.kind]? with
+  | none => simp
+  | some k => simp [Nat.testBit_or]
+
+theorem stIdx_iff (sk : List StepKind) (st : Nat × Nat) (p : Nat) :
+    (stIdx sk st).testBit p = true ↔ ∃ k, sk[st.1]? = some k ∧ k.idx.testBit p = true := by
+  unfold stIdx
+  cases hk : sk[st.1]? with
+  | none => simp
+  | some k => simp
+
+/-- the mask `idxUsed` is exactly the set of names used as an index -/
+theorem idxUsed_iff (kinds : List EqKind) (sk : List StepKind) (b : Body) (p : Nat) :
+    (idxUsed kinds sk b).testBit p = true ↔ IndexUsed kinds sk b p := by
+  unfold idxUsed IndexUsed
+  rw [Nat.testBit_or, Bool.or_eq_true, foldl_or_iff (eqIdx kinds) b.eqs p,
+    foldl_or_iff (stIdx sk) b.steppers p]
+  constructor
+  · rintro (⟨e, he, h⟩ | ⟨st, hst, h⟩)
+    · left; exact ⟨e, he, (eqIdx_iff kinds e p).mp h⟩
+    · right; exact ⟨st, hst, (stIdx_iff sk st p).mp h⟩
+  · rintro (⟨e, he, h⟩ | ⟨st, hst, h⟩)
+    · left; exact ⟨e, he, (eqIdx_iff kinds e p).mpr h⟩
+    · right; exact ⟨st, hst, (stIdx_iff sk st p).mpr h⟩
+
+theorem and_eq_zero_testBit {a b : Nat} (h : (a &&& b == 0) = true) {p : Nat}
+    (ha : a.testBit p = true) : b.testBit p = false := by
+  have h0 : a &&& b = 0 := by simpa using h
+  have h1 : (a &&& b).testBit p = false := by rw [h0]; simp
+  rw [Nat.testBit_and, ha] at h1
+  simpa using h1
+
+theorem testBit_and_eq_zero {a b : Nat} (h : ∀ p, a.testBit p = true → b.testBit p = false) :
+    (a &&& b == 0) = true := by
+  have : a &&& b = 0 := by
+    apply Nat.eq_of_testBit_eq
+    intro p
+    rw [Nat.testBit_and]
+    cases ha : a.testBit p
+    · simp
+    · simp [h p ha]
+  simp [this]
+
+theorem typedArr_spec {a : Nat × Mask} {t : ArrTypes} (h : typedArr a t = true) (p : Nat) :
+    a.2.testBit p = true ↔ (t.integral ||| t.floating).testBit p = true := by
+  unfold typedArr at h
+  simp only [Bool.and_eq_true] at h
+  have h1 : (t.int ||| t.uint ||| t.long ||| t.float ||| t.double) = a.2 := by simpa using h.1.1.1.1
+  rw [← h1]
+  unfold ArrTypes.integral ArrTypes.floating
+  simp only [Nat.testBit_or, Bool.or_eq_true]
+  constructor
+  · rintro ((((h | h) | h) | h) | h)
+    · exact Or.inl (Or.inl (Or.inl h))
+    · exact Or.inl (Or.inl (Or.inr h))
+    · exact Or.inl (Or.inr h)
+    · exact Or.inr (Or.inl h)
+    · exact Or.inr (Or.inr h)
+  · rintro (((h | h) | h) | (h | h))
+    · exact Or.inl (Or.inl (Or.inl (Or.inl h)))
+    · exact Or.inl (Or.inl (Or.inl (Or.inr h)))
+    · exact Or.inl (Or.inl (Or.inr h))
+    · exact Or.inl (Or.inr h)
+    · exact Or.inr h
+
+theorem typedAll_spec (as : List (Nat × Mask)) (ts : List ArrTypes) (h : typedAll as ts = true) :
+    AllTyped as ts := by
+  induction as generalizing ts with
+  | nil =>
+    cases ts with
+    | nil => trivial
+    | cons t ts => simp [typedAll] at h
+  | cons a as ih =>
+    cases ts with
+    | nil => simp [typedAll] at h
+    | cons t ts =>
+      simp only [typedAll, Bool.and_eq_true] at h
+      exact ⟨typedArr_spec h.1, ih ts h.2⟩
+
+/-- the index part of the check is EXACTLY its specification -/
+theorem indexTypes_iff (kinds : List EqKind) (sk : List StepKind) (b : Body) :
+    (subsetB (idxUsed kinds sk b) (intKnown b) &&
+      ((idxUsed kinds sk b &&& floatKnown b) == 0)) = true ↔
+    ∀ p, IndexUsed kinds sk b p → KnownIntegral b p := by
+  rw [Bool.and_eq_true]
+  constructor
+  · rintro ⟨hsub, hdis⟩ p hp
+    have hbit := (idxUsed_iff kinds sk b p).mpr hp
+    refine ⟨(intKnown_iff b p).mp (subsetB_testBit hsub hbit), ?_⟩
+    intro t ht
+    have hf := and_eq_zero_testBit hdis hbit
+    cases htf : t.floating.testBit p
+    · rfl
+    · have := (floatKnown_iff b p).mpr ⟨t, ht, htf⟩
+      rw [this] at hf
+      cases hf
+  · intro h
+    constructor
+    · apply testBit_subsetB
+      intro p hp
+      exact (intKnown_iff b p).mpr (h p ((idxUsed_iff kinds sk b p).mp hp)).1
+    · apply testBit_and_eq_zero
+      intro p hp
+      have hk := (h p ((idxUsed_iff kinds sk b p).mp hp)).2
+      cases hfk : (floatKnown b).testBit p
+      · rfl
+      · obtain ⟨t, ht, htf⟩ := (floatKnown_iff b p).mp hfk
+        rw [hk t ht] at htf
+        cases htf
+
+/-- soundness of the type check -/
+theorem typesOk_sound (kinds : List EqKind) (sk : List StepKind) (b : Body)
+    (h : typesOk kinds sk b = true) : TypesOk kinds sk b := by
+  unfold typesOk at h
+  rw [Bool.and_assoc, Bool.and_eq_true] at h
+  exact ⟨typedAll_spec _ _ h.1, (indexTypes_iff kinds sk b).mp h.2⟩
+
+/-- … and a configuration in which an index-used name is `double` somewhere,
+or an integer nowhere, fails it -/
+theorem typesOk_false_of_bad_index (kinds : List EqKind) (sk : List StepKind) (b : Body) (p : Nat)
+    (hu : IndexUsed kinds sk b p) (hbad : ¬ KnownIntegral b p) : typesOk kinds sk b = false := by
+  cases h : typesOk kinds sk b
+  · rfl
+  · exact absurd ((typesOk_sound kinds sk b h).2 p hu) hbad
+
 /-! ## the real checker is at least as strict on what it looks at -/
 
 /-- what `check_equation_array_properties` accepts has every explicit and
